@@ -247,6 +247,30 @@ Proof.
 Qed.
 Print Assumptions C05_plain_move_hypotheses_hold_in_every_reachable_store.
 
+(* outside that regime — text nodes that touch although consolidation is on, built while it was switched off — the statements
+   above do not speak, but a move still neither makes nor loses character data (the harness checks that on every such call).
+   append and insert_before look for the new neighbour of the node after the consolidation at its old place; where that
+   neighbour is the node itself, its own previous sibling is taken (before fix 9f9d8e0 a text node was merged into itself there
+   and its text was lost).  In a store without adjacent text nodes that change is invisible: *)
+Theorem C05_append_neighbour_is_invisible_without_adjacent_text :
+  forall st p c z st1 m, Good st -> cons st = true -> noadj st -> cur st c = Some z ->
+    opt_eqb (q_raw_last_child st p) (Some c) = false ->
+    remove_consolidate st (q_prev st c) (q_next st c) = (st1, m) -> cur st1 c <> None -> (forall z1, cur st1 c = Some z1 -> z_val z1 = z_val z) ->
+    add_consolidate st1 c (if opt_eqb (q_last_child st1 p) (Some c) then q_prev st1 c else q_last_child st1 p) None
+    = add_consolidate st1 c (q_last_child st1 p) None.
+Proof. exact append_neighbour_noadj. Qed.
+Print Assumptions C05_append_neighbour_is_invisible_without_adjacent_text.
+
+(* the regime itself, in the model: the text nodes a, b, c side by side; append of b, and insert_before of b in front of an
+   element behind them, give acb — every character is still there *)
+Example C05_middle_text_node_keeps_its_text :
+  let ops := [ONewDoc; ONewEl 5; OAppend 0 1; OCons false; ONewText [97]; OAppend 1 2; ONewText [98]; OAppend 1 3; ONewText [99]; OAppend 1 4; OCons true] in
+  store (mfinal init_state (ops ++ [OAppend 1 3]))
+    = FCons 0 VDocument (FCons 1 (VElement 5) (FCons 2 (VText [97; 99; 98]) FNil FNil) FNil) FNil
+  /\ store (mfinal init_state (ops ++ [ONewEl 6; OAppend 1 5; OInsertBefore 5 3]))
+    = FCons 0 VDocument (FCons 1 (VElement 5) (FCons 2 (VText [97; 99; 98]) FNil (FCons 5 (VElement 6) FNil FNil)) FNil) FNil.
+Proof. vm_compute. split; reflexivity. Qed.
+
 (* the argument checks, and the successful outcome, are what the statements above assume *)
 Theorem C05_checked_calls_succeed :
   forall st,
